@@ -444,6 +444,7 @@ LIB = [
     ("std::net::IpAddr", "IpAddr"), ("std::net::SocketAddr", "SocketAddr"), ("savefile::Canary1", "Canary1"),
     ("std::time::Duration", "Duration"), ("std::time::SystemTime", "SystemTime"),
     ("Vec<std::net::IpAddr>", "Vec_IpAddr"), ("Option<std::time::SystemTime>", "Opt_SystemTime"),
+    ("Vec<savefile::Canary1>", "Vec_Canary1"), ("[savefile::Canary1; 2]", "Arr2_Canary1"),
 ]
 
 
@@ -533,6 +534,18 @@ def curated():
     T.append(E("VerEnum", [Vr("A"), Vr("B", [F("x0", "u32")]), Vr("C", [F("x0", "u8")], ver=(1, None))], versions=(0, 1), containers=("vec",)))
     T.append(E("VerEnumFields", [Vr("A", [F("x", "u8"), F("y", "u16", ver=(1, None), default_val="9")], kind="named"), Vr("B")], versions=(0, 1), containers=("vec",)))
     T.append(S("NestedVer", [F("v", "Ver1"), F("w", "Vec<Ver2>"), F("x", "u8", ver=(1, None))], versions=(0, 1, 2), containers=("vec",)))
+    # grid of version thresholds on a padding-free struct (which field decides min_safe_version)
+    for t1 in range(3):
+        for t2 in range(3):
+            for t3 in range(3):
+                if t1 == t2 == t3 == 0:
+                    continue
+                fs = [F(n, "u32", ver=(t, None) if t else None) for n, t in (("a", t1), ("b", t2), ("c", t3))]
+                T.append(S("VerGrid%d%d%d" % (t1, t2, t3), fs, versions=(0, 1, 2), repr="C", containers=("vec",)))
+    T.append(E("VerGridEnum", [Vr("A", [F("x", "u16", ver=(2, None)), F("y", "u16", ver=(1, None))], kind="named"),
+                               Vr("B", [F("x", "u16"), F("y", "u16", ver=(1, None))], kind="named")], repr="u16", versions=(0, 1, 2), containers=("vec",)))
+    T.append(E("ClosedRangeEnum", [Vr("A", [F("gone", "u8", ver=(0, 0)), F("b", "u8")], kind="named"), Vr("B", [F("x", "u8"), F("y", "u8")], kind="named")],
+               repr="u8", versions=(0, 1), tags=("closed-range-plain", "ignore"), containers=("vec", "arr")))
     T.append(S("ClosedRangePlain", [F("a", "u8"), F("gone", "u8", ver=(0, 0)), F("b", "u8")], versions=(0, 1), repr="C", tags=("closed-range-plain", "ignore"), containers=("vec", "arr")))
     return T
 
